@@ -20,7 +20,7 @@ PID = "C40"
 LEVEL = "translation_validation"
 LEAN = ["SaVerif.Props.C40"]
 META = {
-    "text": "Lean theorems about the relational meaning of the loader plans (not about strategies.py itself): for every primary result with distinct keys, every child table, every relationship ordering that commutes with filtering (instance: stable insertion sort, sortByK_filter_comm) and every positive IN chunk size, joined (LEFT OUTER JOIN rows + identity de-duplication + append in row order), subquery (primary query as subquery JOIN child) and selectin (IN chunks) build exactly the lazily loaded graph - same parents, collection contents and order (strategies_agree, selectin_eq_lazy, subquery_eq_lazy, joined_eq_lazy, joined_wrapped_limit); without the subquery wrap LIMIT truncates collections (joined_limit_wrap_needed, proved counterexample); many-to-one IN loading equals per-row lookup (m2o_selectin_eq_lazy); selectin statement count = ceil(n/chunk). The nest decision is transcribed (shouldNest) and compared with what the property needs (nestNeeded): equal for every flag combination incl. fetch() (should_nest_complete; the rule before fix 63056e6 missed fetch() alone: should_nest_misses_fetch, F23, now fixed). The ORM is tied to this by translation validation on SQLite: generated mappings (single-table polymorphic B/BSub targets, a query_expression attribute), data, queries (LIMIT / OFFSET / FETCH each alone and combined, DISTINCT, join+distinct, select() and legacy Query slicing) and every assignment of loader strategies along A.bs / B.cs / C.ds (three levels) / B.a / A.tags plus column options, with_expression and an untriggered raiseload; object-graph snapshots are compared with the all-lazy baseline and with the model's graph, and statement counts / wrap presence / IN chunk sizes with the model's plan.",
+    "text": "Lean theorems about the relational meaning of the loader plans (not about strategies.py itself): for every primary result with distinct keys, every child table, every relationship ordering that commutes with filtering (instance: stable insertion sort, sortByK_filter_comm) and every positive IN chunk size, joined (LEFT OUTER JOIN rows + identity de-duplication + append in row order), subquery (primary query as subquery JOIN child) and selectin (IN chunks) build exactly the lazily loaded graph - same parents, collection contents and order (strategies_agree, selectin_eq_lazy, subquery_eq_lazy, joined_eq_lazy, joined_wrapped_limit); without the subquery wrap LIMIT truncates collections (joined_limit_wrap_needed, proved counterexample); many-to-one IN loading equals per-row lookup (m2o_selectin_eq_lazy); selectin statement count = ceil(n/chunk). The nest decision is transcribed (shouldNest) and compared with what the property needs (nestNeeded): equal for every flag combination incl. fetch() (should_nest_complete; the rule before fix 63056e6 missed fetch() alone: should_nest_misses_fetch, F23, now fixed). The ORM is tied to this by translation validation on SQLite: generated mappings (single-table polymorphic B/BSub targets, a query_expression attribute), data, queries (LIMIT / OFFSET / FETCH each alone and combined, DISTINCT, join+distinct, select() and legacy Query slicing) and every assignment of loader strategies along A.bs / B.cs / C.ds (three levels) / B.a / A.tags plus column options, with_expression and an untriggered raiseload; a second mapping with a composite primary key (x, y) whose ForeignKeyConstraint / table columns / primary-key columns are declared in shuffled orders, with mirrored key pairs, under every strategy for one-to-many, many-to-many and many-to-one (fk_cols_independent_of_declaration_order proved on the model); object-graph snapshots are compared with the all-lazy baseline and with the model's graph, and statement counts / wrap presence / IN chunk sizes with the model's plan.",
     "note": "translation_validation: the theorems are about the relational model of each plan; that strategies.py / context.py / loading.py emit and assemble those plans is only checked by execution on SQLite. Relationships without ORDER BY are compared as multisets. yield_per is exercised only with strategies that permit it; noload is excluded by the property; joined-table inheritance targets are C42's. FETCH is executed on SQLite by rewriting `[OFFSET ? ROWS] FETCH FIRST ? ROWS ONLY` to `LIMIT` in a cursor event. Known finding F24 (AssertionError reading an unset query_expression after load_only + subqueryload + eager backref). F23 (joined eager collection + fetch() alone not wrapped) and F25 (subqueryload + fetch() alone: embedded query loses its ORDER BY) were found here and are fixed in /repo (63056e6, a88c250); their keys are still computed so that a regression reports as a violation.",
     "technique": "Lean 4 proofs about list-relational query plans + differential execution of all loader-strategy assignments on SQLite",
     "design_ref": "DESIGN.md §3 C40, C41, C42",
@@ -482,6 +482,179 @@ def one(ctx, case, assignments, names, cases, impl_out, reqs):
         ctx.sample({"query": q, "ordered": case["ordered"], "ids": base["ids"][:10], "assignments": len(results), "first_graph": base["snap"][0] if base["snap"] else None}, cap=4)
 
 
+
+# ---------------------------------------------------------------------------- composite primary keys
+def gen_composite_case(rng):
+    return {
+        "composite": True,
+        # order in which the child's ForeignKeyConstraint pairs the columns, relative to the
+        # parent's primary key (x, y)
+        "fk_order": rng.choice(["xy", "yx", "yx"]),
+        "col_order": rng.choice(["xy", "yx"]),  # order of the FK columns in the child table
+        "pk_order": rng.choice(["xy", "yx"]),   # order of the primary key columns in the parent table
+        "m2m": rng.random() < 0.5,
+        "ordered": rng.random() < 0.8,
+        "chunk": rng.choice([None, 1, 2]),
+        "limit": rng.choice([None, None, 2, 3]),
+        "seed": rng.randrange(1 << 30),
+    }
+
+
+def build_composite(case):
+    import sqlalchemy as sa
+    from sqlalchemy import Column, ForeignKeyConstraint, Integer, Table
+    from sqlalchemy.orm import declarative_base, relationship
+
+    rng = random.Random(case["seed"])
+    Base = declarative_base()
+    pkcols = [Column("x", Integer, primary_key=True), Column("y", Integer, primary_key=True)]
+    if case["pk_order"] == "yx":
+        pkcols.reverse()
+    fkcols = [Column("p_x", Integer), Column("p_y", Integer)]
+    if case["col_order"] == "yx":
+        fkcols.reverse()
+    if case["fk_order"] == "xy":
+        fkc = ForeignKeyConstraint(["p_x", "p_y"], ["p.x", "p.y"])
+        lk = (["l_x", "l_y"], ["p.x", "p.y"])
+    else:
+        fkc = ForeignKeyConstraint(["p_y", "p_x"], ["p.y", "p.x"])
+        lk = (["l_y", "l_x"], ["p.y", "p.x"])
+    link = Table("link", Base.metadata, Column("l_x", Integer), Column("l_y", Integer), Column("g_id", sa.ForeignKey("g.id")), ForeignKeyConstraint(*lk))
+
+    class P(Base):
+        __tablename__ = "p"
+        __table_args__ = ()
+        locals().update({c_.name: c_ for c_ in pkcols})
+        v = Column(Integer)
+        qs = relationship("Q", back_populates="p", order_by=("Q.id" if case["ordered"] else None))
+        gs = relationship("G", secondary=link, order_by=("G.id" if case["ordered"] else None))
+
+    class Q(Base):
+        __tablename__ = "q"
+        id = Column(Integer, primary_key=True)
+        locals().update({c_.name: c_ for c_ in fkcols})
+        __table_args__ = (fkc,)
+        p = relationship("P", back_populates="qs")
+
+    class G(Base):
+        __tablename__ = "g"
+        id = Column(Integer, primary_key=True)
+
+    eng = sa.create_engine("sqlite://")
+    Base.metadata.create_all(eng)
+    # asymmetric keys with mirrored pairs: (1,2) and (2,1), (1,3) without mirror, (2,2)
+    keys = [(1, 2), (2, 1), (1, 3), (2, 2), (3, 1), (4, 5)]
+    rng.shuffle(keys)
+    keys = keys[: rng.choice([3, 4, 6])]
+    data = {"p": [], "q": [], "g": [{"id": i} for i in range(1, 5)], "link": []}
+    for (x, y) in keys:
+        data["p"].append({"x": x, "y": y, "v": rng.randrange(5)})
+    qid = 0
+    for (x, y) in keys:
+        for _ in range(rng.choice([0, 1, 2, 3])):
+            qid += 1
+            data["q"].append({"id": qid, "p_x": x, "p_y": y})
+        for g in rng.sample(range(1, 5), rng.choice([0, 1, 2])):
+            data["link"].append({"l_x": x, "l_y": y, "g_id": g})
+    # children of a key that has no parent row in the mirrored position
+    qid += 1
+    data["q"].append({"id": qid, "p_x": 9, "p_y": 9})
+    with eng.begin() as c:
+        for name, tbl in (("p", P.__table__), ("g", G.__table__), ("q", Q.__table__), ("link", link)):
+            rows = list(data[name])
+            rng.shuffle(rows)
+            if rows:
+                c.execute(tbl.insert(), rows)
+    return eng, (P, Q, G), data
+
+
+def run_composite(case):
+    """every strategy for P.qs / P.gs / Q.p against the rows of the generated data"""
+    from sqlalchemy import select
+    from sqlalchemy.orm import Session, immediateload, joinedload, lazyload, selectinload, subqueryload
+
+    eng, (P, Q, G), data = build_composite(case)
+    # what the real selectin loader derived: FK columns (as x=0 / y=1), the parent's primary
+    # key order and the join condition's pairs in declaration order
+    from sqlalchemy import inspect as sa_inspect
+
+    prop = sa_inspect(P).relationships["qs"]
+    strat_obj = prop._get_strategy((("lazy", "selectin"),))
+    idx = {"x": 0, "y": 1, "p_x": 0, "p_y": 1}
+    qi = strat_obj._query_info
+    case["_observed"] = {
+        "fk_cols": [idx[c_.name] for c_ in qi.pk_cols],
+        "pk": [idx[c_.name] for c_ in sa_inspect(P).mapper.primary_key],
+        "pairs": [(idx[l.name], idx[r.name]) for l, r in prop._join_condition.local_remote_pairs],
+        "omit_join": bool(strat_obj.omit_join),
+    }
+    fn = {"lazy": lazyload, "joined": joinedload, "subquery": subqueryload, "selectin": selectinload, "immediate": immediateload}
+    bad = []
+    want_qs = {(r["x"], r["y"]): sorted(q["id"] for q in data["q"] if (q["p_x"], q["p_y"]) == (r["x"], r["y"])) for r in data["p"]}
+    want_gs = {(r["x"], r["y"]): sorted(l["g_id"] for l in data["link"] if (l["l_x"], l["l_y"]) == (r["x"], r["y"])) for r in data["p"]}
+    pkeys = {(r["x"], r["y"]) for r in data["p"]}
+    want_p = {q["id"]: ((q["p_x"], q["p_y"]) if (q["p_x"], q["p_y"]) in pkeys else None) for q in data["q"]}
+    try:
+        for strat in COLL:
+            with Session(eng) as s:
+                stmt = select(P).order_by(P.x, P.y)
+                if case["limit"]:
+                    stmt = stmt.limit(case["limit"])
+                opt = selectinload(P.qs, chunksize=case["chunk"]) if strat == "selectin" and case["chunk"] else fn[strat](P.qs)
+                opt2 = selectinload(P.gs, chunksize=case["chunk"]) if strat == "selectin" and case["chunk"] else fn[strat](P.gs)
+                try:
+                    objs = s.execute(stmt.options(opt, opt2)).unique().scalars().all()
+                    for o in objs:
+                        got = sorted(q.id for q in o.qs)
+                        if got != want_qs[(o.x, o.y)]:
+                            bad.append(("c40-composite-collection", "%s: parent (%s, %s) has children %s, its rows are %s" % (strat, o.x, o.y, got, want_qs[(o.x, o.y)])))
+                            break
+                        if case["ordered"] and [q.id for q in o.qs] != got:
+                            bad.append(("c40-composite-collection-order", "%s: parent (%s, %s) children %s" % (strat, o.x, o.y, [q.id for q in o.qs])))
+                            break
+                        gg = sorted(g.id for g in o.gs)
+                        if case["m2m"] and gg != want_gs[(o.x, o.y)]:
+                            bad.append(("c40-composite-m2m-collection", "%s: parent (%s, %s) has gs %s, link rows say %s" % (strat, o.x, o.y, gg, want_gs[(o.x, o.y)])))
+                            break
+                except Exception as e:  # noqa: BLE001
+                    bad.append(("c40-composite-exception", "%s: %s: %s" % (strat, type(e).__name__, str(e)[:200])))
+        for strat in REF:
+            with Session(eng) as s:
+                try:
+                    qs = s.execute(select(Q).order_by(Q.id).options(fn[strat](Q.p))).scalars().all()
+                    for q in qs:
+                        got = None if q.p is None else (q.p.x, q.p.y)
+                        if got != want_p[q.id]:
+                            bad.append(("c40-composite-reference", "%s: child %s refers to parent %s, its row says %s" % (strat, q.id, got, want_p[q.id])))
+                            break
+                except Exception as e:  # noqa: BLE001
+                    bad.append(("c40-composite-exception", "%s (many-to-one): %s: %s" % (strat, type(e).__name__, str(e)[:200])))
+    finally:
+        eng.dispose()
+    return bad
+
+
+def composite_cases(ctx, n, names, cases, impl_out, reqs):
+    for _ in range(n):
+        case = gen_composite_case(ctx.rng)
+        try:
+            bad = run_composite(case)
+        except Exception as e:  # noqa: BLE001
+            bad = [("c40-composite-crash:" + type(e).__name__, str(e)[:300])]
+        ctx.case(("composite", tuple(sorted((k, str(v)) for k, v in case.items()))), nontrivial=True)
+        ctx.count("composite:fk_order=%s pk_order=%s" % (case["fk_order"], case["pk_order"]))
+        for key, detail in bad[:2]:
+            ctx.violation(key, case, detail)
+        # the FK column list of the real loader vs the model's (parent primary-key order)
+        ob = case.pop("_observed", None)
+        if ob and ob["omit_join"]:
+            ctx.count("composite:join-pairs=%s" % ob["pairs"])
+            names.append("fk-column-order")
+            cases.append(case)
+            impl_out.append("ok " + ",".join(str(c_) for c_ in ob["fk_cols"]))
+            reqs.append("loader fkcols %s %s" % (",".join(str(c_) for c_ in ob["pk"]), ",".join("%d>%d" % pr for pr in ob["pairs"])))
+
+
 def run(ctx):
     ctx.rule = (
         "random mapping data (A -< B -< C, B -> A, A >-< Tag; 0-12 parents, plus two cases with 520 / 1030 parents for IN chunking), primary query = "
@@ -498,6 +671,7 @@ def run(ctx):
         case = gen_case(ctx.rng, ctx.tier, big=True)
         case["query"].update({"limit": None, "where": None, "join_filter": 0})
         one(ctx, case, gen_assignments(ctx.rng, ctx.tier, big=True)[:4], names, cases, impl_out, reqs)
+    composite_cases(ctx, 60 if ctx.tier == "quick" else 700, names, cases, impl_out, reqs)
     if ctx.driver_ok():
         model = ctx.driver(reqs)
         for nm in sorted(set(names)):
@@ -515,6 +689,11 @@ def search(ctx, broken):
 
 def replay(ctx, obj):
     c = obj["case"]
+    if isinstance(c, dict) and c.get("composite"):
+        bad = run_composite(c)
+        c.pop("_observed", None)
+        print("replay C40 composite-key case %s -> %s" % (c, bad))
+        return bool(bad)
     case, assign = c["case"], c["assign"]
     try:
         base, results, _ = run_case(case, [assign] if assign else [])
